@@ -22,6 +22,8 @@ rm -f $wt/$ddir/$demo
 git checkout -q -- . && git clean -fdq; find . -name zz_contracts_verif.go -delete
 # run my check in /repo
 cd /repo && git apply $src/patch.diff || { echo "patch does not apply to /repo"; exit 2; }
+cp /verif/evidence/$id.json /tmp/seeded-out/$id.evidence.bak 2>/dev/null
 cd /verif && ./check $id > /tmp/seeded-out/$id-$v.check 2>&1; rc=$?
+cp /tmp/seeded-out/$id.evidence.bak /verif/evidence/$id.json 2>/dev/null  # evidence must describe the unchanged tree
 git -C /repo checkout -- . 
 echo "check exit=$rc"; grep -E "^FAILED|^VIOLATION|^ERROR|^KNOWN|obligations," /tmp/seeded-out/$id-$v.check | cut -c1-250
